@@ -1,13 +1,90 @@
-import Nstd.Sha.Model
-import Nstd.Sha.Spec
+import Nstd.Sha.LemmasHmac
+/-
+  Property C17: SHA-256 and HMAC-SHA-256 equal the standard for every input and chunking.
+
+  Model: `Nstd/Sha/Model.lean` over `Nstd/Generated/Sha256Tables.lean` (regenerated from the current
+  C++ sources on every run).  Standard: `Nstd/Sha/Spec.lean` (FIPS 180-4, RFC 2104).
+  Every theorem below quantifies over ALL messages / chunkings / keys; the only hypothesis is the
+  length bound `< 2^61` bytes (beyond it the 64-bit bit count `count << 3` of the code wraps, which
+  FIPS 180-4 excludes as well: messages are shorter than 2^64 bits).
+-/
 namespace Nstd.Sha
 open Nstd.Generated
 
-/-- the table `K[64]` of the current sources is the table of FIPS 180-4 §4.2.2 (cube roots of the
-first 64 primes) -/
-theorem K_is_fips : Sha256.K = Spec.K := by decide +kernel
+/-- the constants of `Spec.lean` really are what FIPS 180-4 §4.2.2 / §5.3.3 describes: the list of
+primes is the 64 primes below 312 and the integer roots used are exact floors -/
+theorem spec_constants_are_roots_of_primes :
+    Spec.primes64.length = 64 ∧
+    (∀ p ∈ Spec.primes64, Spec.IsFloorRoot 3 (p * 2 ^ 96) (Spec.iroot 3 (p * 2 ^ (32 * 3)))) ∧
+    (∀ p ∈ Spec.primes64.take 8, Spec.IsFloorRoot 2 (p * 2 ^ 64) (Spec.iroot 2 (p * 2 ^ (32 * 2)))) := by
+  unfold Spec.IsFloorRoot
+  decide +kernel
 
-/-- the state written by `reset()` is H⁽⁰⁾ of FIPS 180-4 §5.3.3 (square roots of the first 8 primes) -/
-theorem H0_is_fips : Sha256.H0 = Spec.H0 ∧ Sha256.count0 = 0 := by decide +kernel
+/-- the table `Sha256::Private::K[64]` of the current sources is K⁽²⁵⁶⁾ of FIPS 180-4 §4.2.2 -/
+theorem K_is_fips : Sha256.K = Spec.K := genK_eq
+
+/-- the state and count written by `Sha256::reset()` are H⁽⁰⁾ of FIPS 180-4 §5.3.3 and 0 -/
+theorem H0_is_fips : Sha256.H0 = Spec.H0 ∧ Sha256.count0 = 0 := ⟨genH0_eq, genCount0_eq⟩
+
+/-- the macro bodies `S0 S1 s0 s1 Ch Maj` of the current sources are Σ₀ Σ₁ σ₀ σ₁ Ch Maj of §4.1.2,
+for all 32-bit words -/
+theorem word_functions_are_fips (x y z : UInt32) :
+    Sha256.S0 x = Spec.bigSigma0 x ∧ Sha256.S1 x = Spec.bigSigma1 x ∧
+    Sha256.s0 x = Spec.smallSigma0 x ∧ Sha256.s1 x = Spec.smallSigma1 x ∧
+    Sha256.Ch x y z = Spec.Ch x y z ∧ Sha256.Maj x y z = Spec.Maj x y z :=
+  ⟨S0_eq x, S1_eq x, s0_eq x, s1_eq x, Ch_eq x y z, Maj_eq x y z⟩
+
+/-- one `Transform` call (rolling 16-word window, rotating register index, macro `R`) is the
+compression function of FIPS 180-4 §6.2.2, for every chaining value and every block -/
+theorem transform_eq_fips (state data : List UInt32) (hs : state.length = 8) (hd : data.length = 16) :
+    transform state data = Spec.compress state data :=
+  transform_eq_compress state data hs hd
+
+/-- for every way of splitting a message over `update` calls, `finalize` yields the FIPS digest -/
+theorem streaming (chunks : List (List UInt8)) (hlen : chunks.flatten.length < 2 ^ 61) :
+    (finalize (chunks.foldl update init)).1 = Spec.sha256 chunks.flatten :=
+  (digest_chunks init ((inv_nil_iff _).mp inv_init) chunks hlen).1
+
+/-- `Sha256::hash` -/
+theorem hash_eq_fips (m : List UInt8) (hlen : m.length < 2 ^ 61) : hash m = Spec.sha256 m := by
+  have := streaming [m] (by simpa using hlen)
+  simpa [hash] using this
+
+/-- a hasher is reusable (`Reusable`: initial hash value, count 0, buffer of arbitrary content)
+when constructed, after `finalize()` (whatever was hashed before) and after `reset()` (whatever
+was fed before, of any length); and on every reusable hasher every chunking gives the FIPS digest -/
+theorem reusable_after_finalize_or_reset :
+    Reusable init ∧
+    (∀ p : Sha, Reusable p → ∀ chunks : List (List UInt8), chunks.flatten.length < 2 ^ 61 →
+      (finalize (chunks.foldl update p)).1 = Spec.sha256 chunks.flatten ∧
+      Reusable (finalize (chunks.foldl update p)).2) ∧
+    (∀ p : Sha, Reusable p → ∀ junk : List (List UInt8), Reusable (reset (junk.foldl update p))) := by
+  refine ⟨(inv_nil_iff _).mp inv_init, fun p hp chunks h => digest_chunks p hp chunks h, fun p hp junk => ?_⟩
+  exact (inv_nil_iff _).mp (inv_reset _ (by rw [foldl_update_buffer_length]; exact hp.2.2))
+
+/-- `Sha256::hmac` is HMAC (RFC 2104) over SHA-256 for every key (shorter than, equal to, longer
+than the block size) and every message -/
+theorem hmac_eq_rfc2104 (key msg : List UInt8) (hk : key.length < 2 ^ 61) (hm : msg.length + 64 < 2 ^ 61) :
+    hmac key msg = Spec.hmacSha256 key msg :=
+  hmac_eq key msg hk hm
+
+/-! ### non-vacuity: the hypotheses are met by concrete non-trivial inputs -/
+
+example : ([[0x61], [], [0x62, 0x63]] : List (List UInt8)).flatten.length < 2 ^ 61 := by decide
+example : Reusable (reset (update init [1, 2, 3])) := (reusable_after_finalize_or_reset.2.2 init reusable_after_finalize_or_reset.1 [[1, 2, 3]])
+example : (List.replicate 70 (0xaa : UInt8)).length < 2 ^ 61 ∧ ([0x61] : List UInt8).length + 64 < 2 ^ 61 := by decide
+example : Sha256.H0.length = 8 ∧ (data32 (List.replicate 64 0)).length = 16 := by decide
+
+/-! ### tests of the transcription of the standard (kernel evaluation of `Spec` on the classic vectors;
+the compiled driver additionally compares `Spec.sha256` / `Spec.hmacSha256` with Python hashlib/hmac on every run) -/
+
+/-- FIPS 180-4 / NIST example "abc" -/
+example : Spec.sha256 [0x61, 0x62, 0x63] = [0xba, 0x78, 0x16, 0xbf, 0x8f, 0x01, 0xcf, 0xea, 0x41, 0x41, 0x40, 0xde, 0x5d, 0xae, 0x22, 0x23, 0xb0, 0x03, 0x61, 0xa3, 0x96, 0x17, 0x7a, 0x9c, 0xb4, 0x10, 0xff, 0x61, 0xf2, 0x00, 0x15, 0xad] := by decide +kernel
+/-- empty message -/
+example : Spec.sha256 [] = [0xe3, 0xb0, 0xc4, 0x42, 0x98, 0xfc, 0x1c, 0x14, 0x9a, 0xfb, 0xf4, 0xc8, 0x99, 0x6f, 0xb9, 0x24, 0x27, 0xae, 0x41, 0xe4, 0x64, 0x9b, 0x93, 0x4c, 0xa4, 0x95, 0x99, 0x1b, 0x78, 0x52, 0xb8, 0x55] := by decide +kernel
+/-- NIST two-block example "abcdbcdecdefdefgefghfghighijhijkijkljklmklmnlmnomnopnopq" -/
+example : Spec.sha256 [0x61, 0x62, 0x63, 0x64, 0x62, 0x63, 0x64, 0x65, 0x63, 0x64, 0x65, 0x66, 0x64, 0x65, 0x66, 0x67, 0x65, 0x66, 0x67, 0x68, 0x66, 0x67, 0x68, 0x69, 0x67, 0x68, 0x69, 0x6a, 0x68, 0x69, 0x6a, 0x6b, 0x69, 0x6a, 0x6b, 0x6c, 0x6a, 0x6b, 0x6c, 0x6d, 0x6b, 0x6c, 0x6d, 0x6e, 0x6c, 0x6d, 0x6e, 0x6f, 0x6d, 0x6e, 0x6f, 0x70, 0x6e, 0x6f, 0x70, 0x71] = [0x24, 0x8d, 0x6a, 0x61, 0xd2, 0x06, 0x38, 0xb8, 0xe5, 0xc0, 0x26, 0x93, 0x0c, 0x3e, 0x60, 0x39, 0xa3, 0x3c, 0xe4, 0x59, 0x64, 0xff, 0x21, 0x67, 0xf6, 0xec, 0xed, 0xd4, 0x19, 0xdb, 0x06, 0xc1] := by decide +kernel
+/-- RFC 4231 test case 1 -/
+example : Spec.hmacSha256 (List.replicate 20 0x0b) [0x48, 0x69, 0x20, 0x54, 0x68, 0x65, 0x72, 0x65] = [0xb0, 0x34, 0x4c, 0x61, 0xd8, 0xdb, 0x38, 0x53, 0x5c, 0xa8, 0xaf, 0xce, 0xaf, 0x0b, 0xf1, 0x2b, 0x88, 0x1d, 0xc2, 0x00, 0xc9, 0x83, 0x3d, 0xa7, 0x26, 0xe9, 0x37, 0x6c, 0x2e, 0x32, 0xcf, 0xf7] := by decide +kernel
 
 end Nstd.Sha
